@@ -466,7 +466,7 @@ def install_spec_fns(I):
 
     @reg('ghost')
     def _ghost(I_, a, k):
-        return I_.ghost.get(a[0])
+        return I_.frozen_old(I_.ghost_read(a[0])) if I_.old_mode else I_.ghost_read(a[0])
 
     @reg('distinct')
     def _distinct(I_, a, k):
@@ -778,7 +778,7 @@ def apply_contract_at_call(I, fn, c, args, kwargs):
         I.oblige('%s::call(%s).pre.%s' % (caller, c.name, cid), I.eval_spec(text, penv), kind='pre',
                  info={'clause': text})
     saved_snap = I.old_snapshot
-    I.old_snapshot = I.snapshot(list(local.values()))
+    I.old_snapshot = I.snapshot(list(local.values()) + [v for v in I.ghost.values() if not callable(v)])
     try:
         if c.effect_fn is not None:
             c.effect_fn(I, penv)
